@@ -80,7 +80,7 @@ def check(ctx, rep):
              "Context.evaluate binds it before evaluating, nothing else binds it", floor=3)
     rep.rule("R17j", "every pass of a repeat starts from the element's initial state: on re-entry cmdRepeat re-establishes each register that the "
              "commands ordered after tal:repeat (content, attributes, omit-tag) can change", floor=1)
-    rep.rule("R17g", "keyword discriminators of one if/elif chain index the same position", floor=1)
+    rep.rule("R17g", "keyword discriminators of one if/elif chain index the same position", floor=0)
     mod = prog.modules.get("simpletal.simpleTAL")
     tales = prog.modules.get("simpletal.simpleTALES")
     if mod is None or tales is None:
